@@ -112,3 +112,42 @@ Theorem C17_run_is_reconcile :
         else []).
 Proof. exact run_reconcile. Qed.
 Print Assumptions C17_run_is_reconcile.
+
+(* ---------------------------------------------------------------------------------------------
+   The acme account life cycle (signer.AcmeAccount; `load_ok` = acme.NewClient would succeed now:
+   key readable, ACME directory reachable). *)
+
+(* No sticky failure: after ANY history of calls -- loads that failed, the configuration removed,
+   other accounts configured in between -- a call with a configured account at a moment the load
+   can succeed ends with the account loaded (HasAccount() = true). *)
+Theorem C17_account_retry :
+  forall (h : list (bool * account)) cfg,
+  configured cfg = true ->
+  sg_client (acme_account true cfg (run_accounts h new_signer)) = true.
+Proof. exact account_retry. Qed.
+Print Assumptions C17_account_retry.
+
+(* The queue follows the cluster with the real signer in the loop: for every history of
+   reconciliations (any syncs, leading or not, any acme configuration, loads failing or not), each
+   reconciliation satisfies the statement of C17_queue_follows_cluster with "has an account"
+   answered by the signer (`has`), and on the leader the account is there as soon as acme is
+   configured and the load can succeed -- so from the first such reconciliation on, exactly the
+   storages that appeared or changed are added and those that disappeared or changed removed. *)
+Theorem C17_queue_follows_cluster_account :
+  forall h : list astep,
+  Forall (fun e : astep * step_trace * bool =>
+    let '(s, tr, has) := e in
+    (let st := t_step tr in
+     if (s_called st && s_leader st && s_account st)%bool then
+       NoDup (map fst (t_adds tr)) /\ NoDup (map fst (t_dels tr)) /\
+       (forall n c, In (n, c) (t_adds tr) <->
+          lookup n (t_after tr) = Some c /\
+          (is_full (s_sync st) = true \/ lookup n (t_before tr) <> Some c)) /\
+       (forall n c, In (n, c) (t_dels tr) <->
+          lookup n (t_before tr) = Some c /\ lookup n (t_after tr) <> Some c)
+     else t_adds tr = [] /\ t_dels tr = []) /\
+    s_called (t_step tr) = true /\ s_leader (t_step tr) = as_leader s /\ s_account (t_step tr) = has /\
+    (as_leader s = true -> as_load_ok s = true -> configured (as_config s) = true -> has = true))
+  (areconcile_all (empty_storages, new_signer) h).
+Proof. exact queue_follows_cluster_account. Qed.
+Print Assumptions C17_queue_follows_cluster_account.
